@@ -3,6 +3,7 @@ package rules
 import (
 	"fmt"
 	"go/token"
+	"strings"
 
 	"golang.org/x/tools/go/ssa"
 
@@ -215,4 +216,46 @@ func isTypeAssertOf(v ssa.Value, p ssa.Value) bool {
 func isZeroConst(v ssa.Value) bool {
 	k, ok := v.(*ssa.Const)
 	return ok && k.Value == nil
+}
+
+// ---- C01.column-always-answers / shared lists ----------------------------------------------------------
+
+func init() {
+	register(&Rule{Name: "C01.column-always-answers", Min: 1, Run: c01ColumnAnswers,
+		Doc: "xColumn of the s3db table sets a result on every successful path: an UPDATE therefore re-assigns every column, which the row merge (whose undelete rule is not associative for partially assigned rows) relies on"})
+	byProp["C01"] = append(byProp["C01"], "C01.column-always-answers", "C02.delta")
+	byProp["C08"] = append(byProp["C08"], "C01.column-always-answers")
+	explain["C01"] += " column-always-answers: MergeRows hides column values older than a re-insert only while the delete marker is still a separate merge input, so it is order-independent only for rows whose columns all carry the time of the last statement that wrote the row. That holds because every SQL UPDATE hands xUpdate every column: Cursor.Column never returns without a result (it does not use sqlite3_vtab_nochange). A Column that leaves unassigned columns unset makes readers of the same versions disagree (stale UPDATE, DELETE and re-INSERT of one key). delta (shared with C02): every given value, NULL included, is recorded."
+}
+
+type ansState bool
+
+func (a ansState) Key() string { return fmt.Sprint(bool(a)) }
+
+func c01ColumnAnswers(c *Ctx) {
+	const rule = "C01.column-always-answers"
+	fn := mustFunc(c, "sqlite", "*Cursor", "Column")
+	scr := mustFunc(c, "sqlite", "", "setContextResult")
+	if fn == nil || scr == nil {
+		return
+	}
+	name := core.FuncName(fn)
+	h := an.THooks{Instr: func(in ssa.Instruction, st an.TState) an.TState {
+		if cl, ok := in.(ssa.CallInstruction); ok {
+			if f := cl.Common().StaticCallee(); f == scr || strings.HasPrefix(calleeLabel(cl), "Result") {
+				return ansState(true)
+			}
+		}
+		return st
+	}}
+	exits := an.WalkTypestate(fn, ansState(false), h, c.Scope(fn))
+	good := len(exits) > 0
+	why := ""
+	for _, ex := range exits {
+		if ex.ErrNil != 0 && !bool(ex.St.(ansState)) {
+			good = false
+			why = "Column can return success at " + c.P.Pos(ex.Ret.Pos()) + " without setting a result (e.g. under ctx.NoChange()): xUpdate then sees 'no change' for the column, UPDATE assigns only some columns, and the row merge stops being order-independent — readers that merge the same versions (stale UPDATE, DELETE, re-INSERT of one key) disagree"
+		}
+	}
+	c.R.Cond(good, rule, name+": every successful return follows a result", c.P.Pos(fn.Pos()), "a result is set on every successful path", why)
 }
